@@ -99,6 +99,27 @@ class Program(object):
             else:
                 self.symbol_table[label] = AddressValue(index)
 
+    def resolve_defined_symbols(self):
+        """
+        Symbols may be defined (EQU) in terms of other symbols or of an expression
+        of constants. Replaces each such definition with its value, whatever order
+        the definitions appear in. Definitions that cannot be resolved are left
+        alone and are reported when they are used.
+        """
+        for _ in range(len(self.symbol_table)):
+            changed = False
+            for label, value in self.symbol_table.items():
+                if value.is_symbol() or value.is_expression():
+                    try:
+                        resolved = value.resolve(self.symbol_table)
+                    except (ValueError, ValueTypeError, ZeroDivisionError):
+                        continue
+                    if resolved.is_numeric() or resolved.is_address():
+                        self.symbol_table[label] = resolved
+                        changed = True
+            if not changed:
+                return
+
     def translate_statements(self):
         """
         Translates all the parsed statements into their respective
@@ -107,6 +128,7 @@ class Program(object):
         self.statements = self.process_mnemonics(self.statements)
         for index, statement in enumerate(self.statements):
             self.save_symbol(index, statement)
+        self.resolve_defined_symbols()
 
         for index, statement in enumerate(self.statements):
             statement.resolve_symbols(self.symbol_table)
